@@ -66,54 +66,54 @@ pub fn registry(property: &str) -> Option<CheckSpec> {
         }
     };
     match property {
-        "C02" => Some(spec("C02", "exploration", 600_000, 10_000_000, vec![
+        "C02" => Some(spec("C02", "exploration", 600_000, 5_000_000, vec![
             "FeeParams is driven through the operations and by direct calls of apply_fees / fee on params objects built from the simulated configuration with simulated amounts; LiquidationFeeParams::fee through liquidations and PositionExt::position_fees(.., true) on simulated positions.".into(),
             "Reports do not say which balance-change kind was charged, so a report is accepted if it equals the reference for either factor.".into(),
         ])),
-        "C03" => Some(spec("C03", "exploration", 600_000, 10_000_000, vec![
+        "C03" => Some(spec("C03", "exploration", 600_000, 5_000_000, vec![
             "Pool balance is measured at mid prices on the requested USD deltas, as the impact computation itself defines it.".into(),
             "Exact reference impacts (virtual inventory clause) exist only for unit-multiple exponents 0x..8x; fractional exponents are exercised but only the sign and round-trip oracles apply to them.".into(),
             "Round-trip tolerance is 2 units of 10^-20 USD (truncation of four fixed-point products).".into(),
         ])),
-        "C04" => Some(spec("C04", "fault_enumeration", 300_000, 6_000_000, vec![
+        "C04" => Some(spec("C04", "fault_enumeration", 300_000, 3_000_000, vec![
             "Fault points are the fallible storage calls the swap makes on SimMarket (pool accessors, parameter getters, pool arithmetic); a *_mut accessor is a fault point only if the pool kind was not read successfully before in the operation (trait contract), and a failed pool kind stays unavailable for the rest of the operation.".into(),
             "Enumeration is exhaustive over the fault points of each sampled swap, not over swaps.".into(),
         ])),
-        "C05" => Some(spec("C05", "exploration", 600_000, 10_000_000, vec![
+        "C05" => Some(spec("C05", "exploration", 600_000, 5_000_000, vec![
             "Funded impact is read from the swap impact pool deltas and valued at the maximum prices (the most generous reading of the statement).".into(),
         ])),
-        "C06" => Some(spec("C06", "exploration", 600_000, 10_000_000, vec![
+        "C06" => Some(spec("C06", "exploration", 600_000, 5_000_000, vec![
             "Round trips are forks at points of simulated histories; the fork first settles the fee state (distribute, borrowing, funding) like the store does before every deposit and withdrawal.".into(),
             "Per-token value uses the code's public pool_value under the valuation the leg itself uses; the cross valuations are checked only without price spread and without a binding pnl cap.".into(),
         ])),
-        "C07" => Some(spec("C07", "exploration", 600_000, 10_000_000, vec![
+        "C07" => Some(spec("C07", "exploration", 600_000, 5_000_000, vec![
             "Sums are taken over the harness' own position slots (2-8 per run, both sides x both collateral tokens); a removed position's slot is reset like a closed position account.".into(),
             "Failed attempts are rolled back by the harness as the store rolls back a failed transaction; the invariant is evaluated after every step, failed or not.".into(),
         ])),
-        "C08" => Some(spec("C08", "exploration", 600_000, 10_000_000, vec![
+        "C08" => Some(spec("C08", "exploration", 600_000, 5_000_000, vec![
             "The vault is the harness' own ledger of tokens entering and leaving through the report fields the store transfers on (outputs, secondary outputs, claimable funding, claimable collateral for user and holding, fee claims).".into(),
             "Funding collected is taken from the reports, or from the on_insufficient_funding_fee_payment callback when it fired.".into(),
         ])),
-        "C13" => Some(spec("C13", "exploration", 600_000, 10_000_000, vec![
+        "C13" => Some(spec("C13", "exploration", 600_000, 5_000_000, vec![
             "The factor at which a position last settled is recorded by the harness from the market state at the end of each successful increase / decrease, not read from the position.".into(),
             "total_pending_borrowing_fees is evaluated by the harness after every step (also after clock advances and price changes), both borrowing models (exponent and kink).".into(),
         ])),
-        "C12" => Some(spec("C12", "exploration", 600_000, 10_000_000, vec![
+        "C12" => Some(spec("C12", "exploration", 600_000, 5_000_000, vec![
             "The rate an update used is not part of its report; the harness obtains it from the public next_funding_factor_per_second on a fork of the pre-state with the same duration and open interest.".into(),
             "The minimum is demanded literally (whenever both sides have open interest); the key separates adaptive from non-adaptive configurations.".into(),
         ])),
-        "C14" => Some(spec("C14", "exploration", 600_000, 10_000_000, vec![
+        "C14" => Some(spec("C14", "exploration", 600_000, 5_000_000, vec![
             "Elapsed time is the simulated clock minus the harness' snapshot of the last distribution time; the position impact pool is filled by the negative impact of real position operations of the history.".into(),
         ])),
-        "C10" => Some(spec("C10", "exploration", 600_000, 10_000_000, vec![
+        "C10" => Some(spec("C10", "exploration", 600_000, 5_000_000, vec![
             "The round trip is a fork at a point of a simulated history (other positions open, impact pool empty or filled, funding and borrowing accrued); open and close run at the same prices and simulated time, including the store's pre-settlement when the configuration has it.".into(),
             "Value received = output + secondary output + claimable funding + claimable collateral for the user, at minimum prices; allowance two base units of each pool token.".into(),
         ])),
-        "C11" => Some(spec("C11", "exploration", 600_000, 10_000_000, vec![
+        "C11" => Some(spec("C11", "exploration", 600_000, 5_000_000, vec![
             "The two closes run on forks of the same state; only the index price (min and max) is scaled, the pool token prices stay as they are even when the index token is the long token.".into(),
             "Proportionality tolerance: one unit of USD plus the pnl of one base unit of the token size (derived in c11.rs).".into(),
         ])),
-        "C09" => Some(spec("C09", "exploration", 600_000, 10_000_000, vec![
+        "C09" => Some(spec("C09", "exploration", 600_000, 5_000_000, vec![
             "Model part only: validation after increase / decrease and liquidation through DecreasePosition with the liquidation flag, always for the full size (the store rejects partial liquidations); auto-deleveraging is covered by the chain-level part.".into(),
             "check_liquidatable is the repository's public API, called by the harness on forks of the pre- and post-state.".into(),
         ])),
